@@ -5,7 +5,7 @@ cd /verif || exit 2
 fail=0
 for d in seeded/*/; do
   k=$(basename $d); id=${k%%-*}
-  out=$(tools/try_patch.sh $d/patch.diff $id 2>&1)
+  out=$(tools/try_patch.sh /verif/${d%/}/patch.diff $id 2>&1)
   if echo "$out" | grep -q "^== $id rc=1" && echo "$out" | grep -q "^VIOLATION property=$id"; then
     echo "DETECTED $k  $(echo "$out" | grep -m1 clause | cut -c1-120)"
   else
